@@ -38,10 +38,33 @@ def build(t):
     if k == "between":
         return build(t["a"]).between(build(t["lo"]), build(t["hi"]))
     if k == "call":
+        if t["f"] == "MOD" and len(t["args"]) == 2:
+            return build(t["args"][0]) % build(t["args"][1])      # the % operator builds the MOD() function term
+        if t["f"] == "POW" and len(t["args"]) == 2:
+            return build(t["args"][0]) ** build(t["args"][1])
         return Function(t["f"], *[build(x) for x in t["args"]])
     if k == "case":
         return Case().when(build(t["w"]), build(t["t"])).else_(build(t["e"]))
     raise core.MachineryError(f"unknown tree kind {k}")
+
+
+def operator_functions():
+    """arithmetic written with Python's % and ** becomes a function call (MOD, POW): as an operand of the infix operators it must stay one unit"""
+    def F(n):
+        return {"k": "fld", "n": n}
+
+    def B(op, l, r):
+        return {"k": "bin", "op": op, "l": l, "r": r}
+
+    def C(f, a, b):
+        return {"k": "call", "f": f, "args": [a, b]}
+    out = []
+    for f in ("MOD", "POW"):
+        for op in ("+", "-", "*", "/"):
+            out += [B(op, F("a"), C(f, F("b"), F("c"))), B(op, C(f, F("a"), F("b")), F("c")), C(f, B(op, F("a"), F("b")), F("c")), C(f, F("a"), B(op, F("b"), F("c")))]
+        out += [C(f, F("a"), C(f, F("b"), {"k": "num", "n": "2"})), C(f, C(f, F("a"), F("b")), F("c")), {"k": "neg", "a": C(f, F("a"), F("b"))},
+                B("=", C(f, F("a"), {"k": "num", "n": "2"}), {"k": "num", "n": "0"})]
+    return out
 
 
 def generate(mode: str, rep: core.Report):
@@ -181,6 +204,7 @@ def run(tier: str) -> int:
     have = {json.dumps(t, sort_keys=True) for t in trees}
     trees += [t for t in grown if json.dumps(t, sort_keys=True) not in have]
     rep.extra["grown_trees"] = len(grown)
+    trees += operator_functions()
     events = observe(trees)
     events += containers(len(events))
     verdicts = judge(events, rep)
